@@ -746,7 +746,10 @@ def run_case(case, ctx):
                 try:
                     em.tell(out, obj, meas, add_info)
                 except Exception as ex:  # pylint: disable=broad-except
-                    return Failure("oracle", f"{where} tell: raised {type(ex).__name__}: {str(ex)[:100]}")
+                    # C08 constrains what ask returns; a raising tell is another property's business (C18: the
+                    # bounded non-mirror OpenAI-ES noise bookkeeping).  The history cannot continue: stop here.
+                    ctx.count(f"tell-raised:{kind}:{type(ex).__name__}")
+                    return pending
             ctx.count(f"iter:{kind}")
         return pending
     finally:
